@@ -386,6 +386,48 @@ def _order_and_bookkeeping(prog, res):
     raise AnalysisError('_weighted_quantile: repair bookkeeping changed '
                         'shape (%d adds, %d stores)' % (len(adds),
                                                        len(stores)))
+  # the repair loop visits every position: the loop that contains the store
+  # `quantiles_idx[i] = ...` ranges over i = 0 (or 1: position 0 is always a
+  # first use) .. len(quantiles_idx) - 1
+  idx = dotted(stores[0].targets[0].slice)
+  loops = [l for l in ast.walk(wq.node) if isinstance(l, ast.For) and dotted(
+      l.target) == idx and any(x is stores[0] for x in ast.walk(l))]
+  if len(loops) != 1:
+    raise AnalysisError('_weighted_quantile: the loop over the positions of '
+                        'quantiles_idx was not found')
+  it = loops[0].iter
+  full = False
+  if isinstance(it, ast.Call) and dotted(it.func) == 'range' and \
+      not it.keywords and 1 <= len(it.args) <= 2:
+    start = const_value(it.args[0], None) if len(it.args) == 2 else 0
+    stop = norm_text(it.args[-1]).replace(' ', '')
+    full = start in (0, 1) and stop == 'len(quantiles_idx)'
+  elif isinstance(it, ast.Call) and dotted(it.func) == 'enumerate' and \
+      it.args and dotted(it.args[0]) == 'quantiles_idx':
+    full = True
+  res.check(full, 'K2', 'premade_lib._weighted_quantile|repair-covers-all',
+            wq.loc(loops[0]),
+            'every position of quantiles_idx is examined for a repeated index',
+            'the repair loop ranges over `%s`: positions outside it keep a '
+            'repeated quantile index and the keypoints contain duplicates' %
+            norm_text(it)[:60])
+  # "is this position a repeat?" must not be decided by reading another entry
+  # of the very sequence the loop rewrites (the third of three equal indices
+  # would be compared with the already replaced second one)
+  rewritten = []
+  for t, _pol in structural_guards(wq.node, stores[0]) or []:
+    for sub in ast.walk(t):
+      if isinstance(sub, ast.Subscript) and dotted(
+          sub.value) == 'quantiles_idx' and dotted(sub.slice) != idx:
+        rewritten.append(norm_text(sub))
+  res.check(not rewritten, 'K2',
+            'premade_lib._weighted_quantile|repeat-test-stable', wq.loc(
+                loops[0]),
+            'the repeat test does not read entries the loop may have replaced',
+            'the repair is guarded by `%s`, an entry of quantiles_idx that an '
+            'earlier iteration may already have replaced: with three equal '
+            'indices the third is judged "not repeated"' % (
+                rewritten[0] if rewritten else ''))
   a, s = norm_text(adds[0].args[0]), norm_text(stores[0].value)
   gs = structural_guards(wq.node, adds[0]) or []
   free_test = any(isinstance(c, ast.Compare) and isinstance(
